@@ -14,7 +14,7 @@
 use std::sync::atomic::{AtomicU64, Ordering};
 
 pub const MAX_WORKERS: usize = 64;
-pub const HANG_MS: u64 = 20_000;
+pub const HANG_MS: u64 = 60_000;
 pub const EXIT_SUSPECT: i32 = 6;
 
 pub struct Slot {
